@@ -264,3 +264,17 @@ def light_snapshot(rng, k):
 def canon_ub(line: str) -> str:
     """Sanitizer kinds are compared as a class: any `ub …` is `ub`."""
     return "ub" if line.startswith("ub ") else line
+
+
+def run_harness_robust(runner, scripts, watchdog=30):
+    """runner.run_harness, except that a script in which the per-line wall-clock watchdog fired is run once more,
+    alone and with a ten times longer watchdog, before its `ub nontermination` line is believed: on a loaded machine
+    (the box is shared) a single fsync can outlast the watchdog.  A real hang times out again.
+    -> (results, number of scripts retried)"""
+    res = runner.run_harness(scripts, watchdog=watchdog)
+    retried = 0
+    for i, (out, reps) in enumerate(res):
+        if any(o == "ub nontermination" for o in out):
+            retried += 1
+            res[i] = runner.run_harness_script(scripts[i], watchdog * 10)
+    return res, retried
